@@ -1,8 +1,8 @@
 #!/bin/sh
-# usage: tools/eval_mutant.sh <Cxx> <k> [<check ids...>]   (evaluates /tmp/wt/out/Cxx/patch_k.diff in worktree /tmp/wt/Cxx)
+# usage: tools/eval_mutant.sh <Cxx> <k> [<check ids...>]   (evaluates $WTBASE/out/Cxx/patch_k.diff in worktree $WTBASE/Cxx; WTBASE defaults to /tmp/wt2)
 ID="$1"; K="$2"; shift 2
 CHECKS="${*:-$ID}"
-WT=/tmp/wt/$ID; OUT=/tmp/wt/out/$ID
+B="${WTBASE:-/tmp/wt2}"; WT=$B/$ID; OUT=$B/out/$ID
 cd "$WT" || exit 2
 git checkout -q -- . ; git clean -fdq
 git checkout -q --detach "$(git -C /repo rev-parse HEAD)"
